@@ -4,6 +4,7 @@ package main
 // z3 (4.8.12) and cvc5; first definitive answer wins.
 
 import (
+	"regexp"
 	"bytes"
 	"context"
 	"crypto/sha256"
@@ -154,7 +155,7 @@ func writeQuery(workDir string, pre *Prelude, o *Obligation) string {
 	}
 	h := sha256.Sum256([]byte(o.Name))
 	file := filepath.Join(workDir, fmt.Sprintf("%x.smt2", h[:8]))
-	os.WriteFile(file, []byte(b.String()), 0o644)
+	os.WriteFile(file, []byte(pruneUnusedConsts(b.String())), 0o644)
 	return file
 }
 
@@ -236,7 +237,7 @@ func fnSanityCompute(fn, workDir string, pre *Prelude, obls []*Obligation) bool 
 		}
 		txt := "(set-logic ALL)\n" + prelude + strings.Join(lines, "\n") + "\n" + post + "(check-sat)\n"
 		f2 := filepath.Join(workDir, "sanity-"+fmt.Sprintf("%x", sha256.Sum256([]byte(fn)))[:12]+".smt2")
-		os.WriteFile(f2, []byte(txt), 0o644)
+		os.WriteFile(f2, []byte(pruneUnusedConsts(txt)), 0o644)
 		ctx, cancel := context.WithTimeout(context.Background(), 4*time.Second)
 		st, _ := runSolver(ctx, solvers[0], f2, 2)
 		cancel()
@@ -335,4 +336,79 @@ func dischargeAll(obls []*Obligation, prelude *Prelude, workDir string, timeoutS
 		}()
 	}
 	wg.Wait()
+}
+
+var (
+	reStrTok  = regexp.MustCompile(`str![0-9]+`)
+	reZarrTok = regexp.MustCompile(`zarr![A-Za-z0-9_.!]+`)
+	reStrDecl = regexp.MustCompile(`^\((?:declare|define)-fun (str![0-9]+) \(\) Str`)
+	reStrLen  = regexp.MustCompile(`^\(assert \(= \(slen (str![0-9]+)\) [0-9]+\)\)$`)
+	reStrCat  = regexp.MustCompile(`^\(assert \(forall \(\(x Str\)\) \(! \(= \(scat (?:x )?(str![0-9]+)`)
+	reZDecl   = regexp.MustCompile(`^\(declare-fun (zarr![A-Za-z0-9_.!]+) \(\)`)
+	reZAx     = regexp.MustCompile(`^\(assert \(forall \(\(i Int\)\) \(! \(= \(select (zarr![A-Za-z0-9_.!]+) i\)`)
+)
+
+// pruneUnusedConsts drops the declarations (and defining axioms) of string literals and zero arrays that the query
+// never mentions.  The literal table is shared by all functions of a run, so without this the text of a query - and with
+// it the solvers' behaviour on borderline obligations - depended on which other functions were generated before it.
+func pruneUnusedConsts(text string) string {
+	lines := strings.Split(text, "\n")
+	owner := make([]string, len(lines)) // constant a line belongs to ("" = ordinary line)
+	distinctLine := -1
+	for i, l := range lines {
+		switch {
+		case strings.HasPrefix(l, "(assert (distinct str!"):
+			distinctLine = i
+			owner[i] = "#distinct"
+		case reStrDecl.MatchString(l):
+			owner[i] = reStrDecl.FindStringSubmatch(l)[1]
+		case reStrLen.MatchString(l):
+			owner[i] = reStrLen.FindStringSubmatch(l)[1]
+		case reStrCat.MatchString(l):
+			owner[i] = reStrCat.FindStringSubmatch(l)[1]
+		case reZDecl.MatchString(l):
+			owner[i] = reZDecl.FindStringSubmatch(l)[1]
+		case reZAx.MatchString(l):
+			owner[i] = reZAx.FindStringSubmatch(l)[1]
+		}
+	}
+	used := map[string]bool{}
+	// zero-array axioms mention string literals in their element values: iterate to a fixpoint
+	for changed := true; changed; {
+		changed = false
+		for i, l := range lines {
+			if owner[i] != "" && !(used[owner[i]] && (reZAx.MatchString(l))) {
+				continue
+			}
+			for _, t := range reStrTok.FindAllString(l, -1) {
+				if !used[t] {
+					used[t], changed = true, true
+				}
+			}
+			for _, t := range reZarrTok.FindAllString(l, -1) {
+				if !used[t] {
+					used[t], changed = true, true
+				}
+			}
+		}
+	}
+	var out []string
+	for i, l := range lines {
+		if owner[i] == "" || (owner[i] != "#distinct" && used[owner[i]]) {
+			out = append(out, l)
+			continue
+		}
+		if i == distinctLine {
+			var ks []string
+			for _, t := range reStrTok.FindAllString(l, -1) {
+				if used[t] {
+					ks = append(ks, t)
+				}
+			}
+			if len(ks) > 1 {
+				out = append(out, "(assert (distinct "+strings.Join(ks, " ")+"))")
+			}
+		}
+	}
+	return strings.Join(out, "\n")
 }
